@@ -97,6 +97,22 @@ fn check_zero_len(c: &ZeroLen) -> CaseResult {
         let r = guarded("Directory::from_reader", || super::c05::lib_read(&enc, c.codec, asyncr)).map_err(|f| Fail::new(format!("C19/zero-length-parser-panics/{k}"), f.msg))?;
         ensure!(r.is_err(), format!("C19/zero-length-parsed/{k}"), "parser accepted a directory whose entry {at} of {} has length 0 ({})", es.len(), codec::name(c.codec));
     }
+    // a length varint that is a non-zero multiple of 2^32 is out of range for the 32-bit field; whatever the parser
+    // does with it, it must not hand out an entry of length 0
+    for k in [1u64, 2, 3] {
+        let mut vals = directory::values(&es, true);
+        let n = es.len();
+        vals[1 + 2 * n + at] = k << 32;
+        let enc = codec::compress(c.codec, &directory::from_values(&vals), c.params);
+        for asyncr in [false, true] {
+            let kk = if asyncr { "async" } else { "sync" };
+            let r = guarded("Directory::from_reader", || super::c05::lib_read(&enc, c.codec, asyncr)).map_err(|f| Fail::new(format!("C19/zero-length-parser-panics/{kk}"), f.msg))?;
+            if let Ok(d) = r {
+                let zero = (&d).into_iter().any(|e| e.length == 0);
+                ensure!(!zero, format!("C19/zero-length-parsed/{kk}"), "length varint {} (= {k} * 2^32) at entry {at} was parsed into an entry of length 0", k << 32);
+            }
+        }
+    }
     Ok(Meta::new(at > 0).label(at > 0, "zero-length-not-first").label(es.len() > 100, "zero-length-big-directory").label(true, super::c01::codec_label(c.codec)))
 }
 
